@@ -397,7 +397,10 @@ def process_node_fields(
             # Possible child field
             res = is_valid_child_field_type(ftype, node_base_type)
             if res == InvalidTypeReason.OK:
-                child_fields[f] = get_type_info(ftype)
+                # A valid child field is a collection only if it is annotated as a tuple.
+                # A node class may itself implement the Collection ABC (__len__, __iter__,
+                # __contains__), which must not turn a single child into a sequence of children
+                child_fields[f] = FieldTypeInfo(is_tuple(ftype), ftype)
             else:
                 incorrect_fields.append((f.name, res.value, ftype))
         else:
